@@ -17,3 +17,5 @@ def run(repo, res, tier):
     tablerules.rule_tb6(repo, res)
     timerules.rule_decode_side(repo, res)
     timerules.rule_r(repo, res)
+    from .. import langrules
+    langrules.rule_lex1(repo, res, langrules.analyse(repo), kinds=("date/time",))
